@@ -15,22 +15,25 @@ U6W = ("u6_writer_step", {})
 U8 = ("u8_writer_tail", {})
 U9 = ("u9_selftest", {})
 U11 = ("u11_text_safety", {})
+U13 = ("u13_mapper_builder", {})
+U14 = ("u14_writer_builder", {})
 U12M = ("u12_text_trace", {"which": "mapper"})
 U12C = ("u12_text_trace", {"which": "cache"})
 U3 = ("u3_interpretation", {})
 U4 = ("u4_cache_parse", {})
 U7 = ("u7_metadata", {})
 
-BUILDERS_ASSUMED = ("of the two builder loops (ProguardMapper::create_proguard_mapper, collection loop of ProguardCache::write) the bodies of the "
-                    "three match arms are under contract as R5 regions (units u6_*: what one Header / Class / Method record does to the state); "
-                    "the loop plumbing around them -- `while let Some(record) = records.next()`, `match record`, `records.peek()` "
-                    "(Peekable<FilterMap<..>>), the final flush of the last class -- is ASSUMED to feed each record to its arm once, in file order, "
-                    "with the real next record; HashMap/BTreeMap entry API and HashSet::insert sit behind assumed shims")
+BUILDERS_ASSUMED = ("builders: the mapper builder ProguardMapper::create_proguard_mapper is verified as a whole (unit u13: loop plumbing around the arm regions of u6, "
+                    "postcondition abs(ret.classes) == built(ok_records(mapping), flag), the fold of one abstract step per record with one record of look-ahead, then the flush); "
+                    "of ProguardCache::write the collection loop is verified as a whole only for the counter invariant wf_cip (unit u14) -- that the collected classes are the "
+                    "fold of the per-arm steps is proved per arm (u6_writer_step), the composition over the loop is ASSUMED for the writer; in both, "
+                    "`mapping.iter().filter_map(Result::ok).peekable()` is behind a shim (ghost: ok_records(mapping), the Ok items of the stream of unit u7), and the "
+                    "HashMap/BTreeMap entry API, HashSet::insert and Peekable::{next,peek} sit behind assumed shims")
 
 PROPS = {
     "C01": {
         "title": "Line-based retrace returns exactly the recorded call stack",
-        "units": [U1F, U2F, U3, U6M, U6W],
+        "units": [U1F, U2F, U3, U6M, U6W, U13],
         "kani": [],
         "technique": "Verus (Z3) function contracts on mechanically extracted reader code: iterate_with_lines/next == head of spec retrace(); remap_frame == exact entry block",
         "level_text": "Deductive proof, for all field values / slice lengths / iterations, that both readers' frame iterators yield exactly "
@@ -45,7 +48,7 @@ PROPS = {
     },
     "C02": {
         "title": "A cache written from a mapping answers every query exactly like the mapper",
-        "units": [U1F, U2F, U8, U3, U6M, U6W],
+        "units": [U1F, U2F, U8, U3, U6M, U6W, U13, U14],
         "kani": [],
         "technique": "refinement: both readers proved (Verus) against the SAME spec functions retrace/by_params/unanimous through abs_member / abs_mm",
         "level_text": "Both readers are verified against one shared abstract model, so equal abstract entries give equal answers for remap_class, "
@@ -56,7 +59,7 @@ PROPS = {
     },
     "C03": {
         "title": "Parameter-based retrace",
-        "units": [U1F, U2F, U8, U6M, U6W],
+        "units": [U1F, U2F, U8, U6M, U6W, U13],
         "kani": [],
         "technique": "Verus contracts: iterate_without_lines == head of by_params(); remap_frame(by params) == exact (name, params) block",
         "level_text": "Proof that a frame carrying parameters is answered from exactly the entries whose (obfuscated name, params) match, one frame "
@@ -66,7 +69,7 @@ PROPS = {
     },
     "C04": {
         "title": "Class lookup exact; method lookup never guesses",
-        "units": [U1F, U2F, U6M, U6W],
+        "units": [U1F, U2F, U6M, U6W, U13],
         "kani": [],
         "technique": "Verus contracts on get_class / remap_class / remap_method (iff-unanimous postcondition), both readers",
         "level_text": "Proof that remap_class answers iff a class with exactly that obfuscated name exists, and remap_method answers (class, m) iff "
@@ -139,7 +142,7 @@ PROPS = {
     },
     "C09": {
         "title": "Written cache files conform to the documented layout and ordering invariants",
-        "units": [U8, U9, U6W],
+        "units": [U8, U9, U6W, U14],
         "kani": ["k1_header_layout", "k1_class_layout", "k1_member_layout", "k2_format_constants"],
         "technique": "Verus proof that the writer tail emits exactly canonical() = the documented v1 layout (header, padded sections, tiling class ranges); Kani (complete, loop-free) for record byte layouts and constants",
         "level_text": "The part of ProguardCache::write after the record-collection loop is proved to deliver exactly canonical(classes, strings): "
@@ -149,7 +152,7 @@ PROPS = {
                       "Sortedness of classes/members and the contents of the string section come from BTreeMap iteration order and "
                       "watto::StringTable inside the collection loop and are assumed; `test()` accepting every such file is not decided.",
         "assumed": [BUILDERS_ASSUMED, "BTreeMap::into_values/values iterate in ascending key order (std)",
-                    "the collection loop keeps class.members_len / members_by_params_len equal to the number of records in the class's maps (wf_cip)",
+                    "fewer than 2^32 Ok records in the mapping (representable domain of the u32 counters; under it unit u14 proves wf_cip for every class handed to the tail)",
                     "watto::StringTable::into_bytes / insert (string section contents, interning)",
                     "Pod::as_bytes byte images are abstract in the Verus proof; their layout is what Kani K1 proves"],
         "not_decided": ["strict sortedness of the class section and (name, params) order of the by-params section (produced inside the unreachable collection loop)",
@@ -224,7 +227,7 @@ PROPS = {
     },
     "C13": {
         "title": "No mapping bytes and no query can make the library panic or overflow",
-        "units": [U2S, U5, U7, U10M, U3, U8, U9, U6M, U6W, U1S, U4, U10C, U11],
+        "units": [U2S, U5, U7, U10M, U3, U8, U9, U6M, U6W, U1S, U4, U10C, U11, U13, U14],
         "kani": ["k3_java_base_types"],
         "technique": "Verus implicit obligations on the mapper reader with NO precondition on entry values",
         "level_text": "The mapper's reader functions are verified with arbitrary usize entry values and any frame: no overflow, no out-of-bounds, termination.",
